@@ -45,6 +45,12 @@ class StateVector(BasisManaged):
 
         self._initialized = False
 
+        # the vector is created in the basis which is current now (as 
+        # operators are); without this it cannot be created inside 
+        # a basis context
+        cb = self.manager.get_current_basis()
+        self.set_current_basis(cb)
+
         # check and save data
         if data is not None:
 
@@ -70,6 +76,9 @@ class StateVector(BasisManaged):
                 self.dim = dim
                 self.data = numpy.zeros(dim, dtype=COMPLEX)
                 self._initialized = True
+
+        if self._initialized and (cb != 0):
+            self.manager.register_with_basis(cb, self)
 
 
 
